@@ -11,6 +11,7 @@ judged).  A WILD marker in the expectation encodes the latter.
 from __future__ import annotations
 
 import copy
+import itertools
 from collections import OrderedDict
 
 import petl
@@ -909,16 +910,27 @@ def j_accessors(case, ctx, table, hdr, rows, tabs, frame):
     which, missing = case['which'], case['missing']
     kw = {'missing': missing} if missing is not None else {}
     n = len(hdr)
+    # the row accessors take slice arguments (stop / start, stop / start, stop, step) that select data rows exactly as
+    # itertools.islice does over the data rows; chosen by a hash of the case, a stop of 0 and None bounds included
+    sl = ()
+    h_ = int(util.fp(case)[8:12], 16)
+    if which in ('data', 'dicts', 'records', 'namedtuples') and h_ % 2 == 0:
+        forms = [(0,), (1,), (2,), (None,), (0, 0), (1, 0), (1, 2), (0, None), (1, None), (2, 1), (0, 0, 2), (0, None, 2), (1, 4, 2), (None, None, 3), (3, 0), (0, 3, 1)]
+        sl = forms[(h_ // 2) % len(forms)]
+        rows = list(itertools.islice(rows, *sl))
+        ctx.seen('accessor-with-slice-arguments')
+        if sl[-1 if len(sl) < 3 else 1] == 0:
+            ctx.seen('accessor-with-slice-arguments:stop-0')
     if which == 'data':
-        got = util.attempt(lambda: [tuple(r) for r in iter(petl.data(table))])
+        got = util.attempt(lambda: [tuple(r) for r in iter(petl.data(table, *sl))])
         exp = [tuple(r) for r in rows]
     elif which == 'dicts':
-        got = util.attempt(lambda: list(iter(petl.dicts(table, **kw))))
+        got = util.attempt(lambda: list(iter(petl.dicts(table, *sl, **kw))))
         exp = [dict((hdr[i], _get(r, i, missing)) for i in range(n)) for r in rows]
     elif which == 'records':
         def recs():
             out = []
-            for rec in iter(petl.records(table, **kw)):
+            for rec in iter(petl.records(table, *sl, **kw)):
                 out.append((tuple(rec), [rec[h] for h in hdr], [rec[i] for i in range(n)], [getattr(rec, h) for h in hdr]))
             return out
         got = util.attempt(recs)
@@ -927,7 +939,7 @@ def j_accessors(case, ctx, table, hdr, rows, tabs, frame):
             padded = [_get(r, i, missing) for i in range(n)]
             exp.append((tuple(r), padded, padded, padded))
     elif which == 'namedtuples':
-        got = util.attempt(lambda: [(tuple(x), x._fields) for x in iter(petl.namedtuples(table, **kw))])
+        got = util.attempt(lambda: [(tuple(x), x._fields) for x in iter(petl.namedtuples(table, *sl, **kw))])
         exp = [(tuple(_get(r, i, missing) for i in range(n)), tuple(hdr)) for r in rows]
         if any(len(r) > n for r in rows):
             return None      # long rows are not documented for namedtuples
